@@ -9,7 +9,7 @@ import random
 import sys
 from abc import ABCMeta, abstractmethod
 from contextlib import contextmanager
-from types import CodeType, FrameType
+from types import CodeType, FrameType, FunctionType, MethodType
 from typing import Any, Callable, Dict, Iterator, Optional, Union, cast
 
 import opcode
@@ -118,15 +118,21 @@ def get_func_in_mro(obj: Any, code: CodeType) -> Optional[Callable[..., Any]]:
     return _has_code(cand, code)
 
 
+_FUNCTION_TYPES = (FunctionType, MethodType)
+
+
 def _has_code(
     func: Optional[Callable[..., Any]], code: CodeType
 ) -> Optional[Callable[..., Any]]:
+    # Only real functions are inspected and __wrapped__ is looked up statically: a dynamic
+    # getattr() on an arbitrary candidate (a same-named global, a callable local of a caller)
+    # would run user-defined attribute hooks, and may never terminate on objects that
+    # fabricate attributes.
     while func is not None:
-        func_code = getattr(func, "__code__", None)
-        if func_code is code:
+        if issubclass(type(func), _FUNCTION_TYPES) and func.__code__ is code:
             return func
         # Attempt to find the decorated function
-        func = getattr(func, "__wrapped__", None)
+        func = inspect.getattr_static(func, "__wrapped__", None)
     return None
 
 
